@@ -6,8 +6,8 @@ CONSTANTS
   WksAddr = 2
   Names = {"wk", "n1", "n2", "n3"}
   MaxSock <- Max50
-  KindSeq <- SeqAllocT
-  Roles <- AllocOnly
+  KindSeq <- SeqRefill
+  Roles <- RefillOps
   Msgs = {1, 2}
   BindAddrs <- BA
   Dsts = {2, 3, 5, 6}
@@ -20,17 +20,7 @@ CONSTANTS
   Lens = {1}
   InsertLast = FALSE
   HdrInMiu = FALSE
-VIEW View
-INVARIANT OneAddrPerSocket
-INVARIANT NoDoubleAlloc
-INVARIANT RangesRespected
-INVARIANT FreedOnLastClose
-INVARIANT AddrPoolConserved
-INVARIANT Datagram
-INVARIANT LiveFirst
-PROPERTY ResolveRight
-PROPERTY InUseRight
-PROPERTY ConnectByName
-PROPERTY DatagramStep
-PROPERTY Delivered
 CHECK_DEADLOCK FALSE
+INVARIANT AddrPoolConserved
+INVARIANT NoDoubleAlloc
+PROPERTY NeverDynRefilled
